@@ -161,6 +161,9 @@ class Shapes:
         if isinstance(e, (ast.List, ast.Tuple)):
             rs = [self.ends_crlf(x, fi, depth + 1, at) for x in e.elts]
             return _join(r[0] for r in rs) if rs else YES, "; ".join(r[1] for r in rs if r[0] != YES) or "list literal of CRLF-terminated lines"
+        if isinstance(e, (ast.ListComp, ast.GeneratorExp, ast.SetComp)):
+            r = self.ends_crlf(e.elt, fi, depth + 1, at)
+            return r[0], r[1] if r[0] != YES else "every element of the comprehension ends with CRLF"
         if isinstance(e, ast.Name):
             rs = []
             found = False
